@@ -186,7 +186,16 @@ where
 
         self.read_block()?;
 
-        self.block.data_mut().set_position(usize::from(upos));
+        let upos = usize::from(upos);
+
+        if upos > self.block.data().len() {
+            return Err(io::Error::new(
+                io::ErrorKind::InvalidInput,
+                "invalid virtual position: uncompressed position exceeds block data length",
+            ));
+        }
+
+        self.block.data_mut().set_position(upos);
 
         Ok(pos)
     }
